@@ -45,6 +45,24 @@ def obligations(tier, seed):
                 obs.append(Ob(id='C14.div.%s' % rep, prop='C14', group='C14.%s' % rep, prelude=PRE, wrappers=[w_div, w_raw], inputs=[(ct, 'a'), (ct, 'b')], body=body, fp=True,
                               budget=900, contract='forall bit patterns: (m(a) / s(b)).in(m/s) == a/b; m(a) / m(b) is the raw number a/b',
                               functions_under_contract=('au::Quantity::operator/(Quantity)', 'au::make_quantity_unless_unitless')))
+            # int_pow with negative and positive exponents on a restricted family (x = n for 1 <= n <= 1000, exhaustively): 1 / (x*x...) in this order of operations
+            wn2 = Wrapper('w_pown2_' + rep, ct, [(ct, 'a')], 'return au::int_pow<-2>(%s).in(au::UnitPowerT<%s, -2>{});' % (qa, M))
+            wn3 = Wrapper('w_pown3_' + rep, ct, [(ct, 'a')], 'return au::int_pow<-3>(%s).in(au::UnitPowerT<%s, -3>{});' % (qa, M))
+            wp3 = Wrapper('w_powp3_' + rep, ct, [(ct, 'a')], 'return au::int_pow<3>(%s).in(au::UnitPowerT<%s, 3>{});' % (qa, M))
+            one = '1.0f' if rep == 'f32' else '1.0'
+            bodyf = '''
+  ASSUME(n >= 1 && n <= NMAX);
+  %s x = (%s)n;
+  CHECK(%s(%s(x)) == %s(%s / (x * x)), "int_pow-minus-2-is-1-over-x-squared");
+  CHECK(%s(%s(x)) == %s(%s / (x * (x * x))), "int_pow-minus-3-is-1-over-x-cubed");
+  CHECK(%s(%s(x)) == %s(x * (x * x)), "int_pow-3-is-x-cubed");
+''' % (ct, ct, bits, wn2.name, bits, one, bits, wn3.name, bits, one, bits, wp3.name, bits)
+            nmax = 1000 if tier == 'thorough' else (200 if rep == 'f32' else 60)
+            bodyf = bodyf.replace('NMAX', str(nmax))
+            obs.append(Ob(id='C14.int_pow-family.%s' % rep, prop='C14', group='C14.%s' % rep, prelude=PRE, wrappers=[wn2, wn3, wp3], inputs=[('uint16_t', 'n')], body=bodyf, fp=True,
+                          bounded=True, budget=300,
+                          contract='restricted family x = n, 1 <= n <= ' + str(nmax) + ' (%s): int_pow<-2>, int_pow<-3>, int_pow<3> equal 1/(x*x), 1/(x*(x*x)), x*(x*x) bit for bit (raw operators in the '
+                                   'library\'s order of operations)' % ct, functions_under_contract=('au::int_pow', 'au::detail::int_pow_impl')))
             # sqrt / cbrt: stub contract
             sfx = 'f' if rep == 'f32' else ''
             w_sqrt = Wrapper('w_sqrt_' + rep, ct, [(ct, 'a')], 'return au::sqrt(au::make_quantity<au::UnitPowerT<%s, 2>>(a)).in(%s{});' % (M, M))
